@@ -3,7 +3,7 @@ from __future__ import annotations
 
 import ast
 
-from .. import AnalysisError, flow, states, cmp, rules
+from .. import AnalysisError, flow, states, cmp, rules, gd
 from ..report import Ctx
 
 VO = "nrel/hive/state/vehicle_state/vehicle_state_ops.py"
@@ -31,6 +31,7 @@ def run(ctx: Ctx):
     ctx.attempt(partition, ctx)
     ctx.attempt(split, ctx)
     ctx.attempt(leaving, ctx)
+    ctx.attempt(arrival_enterable, ctx)
     ctx.floor("DU.move", 4)
     ctx.floor("DU.partition", 5)
     ctx.floor("DU.split", 3)
@@ -286,6 +287,62 @@ def leaving(ctx: Ctx):
             ok = flow.values_match(ps, f"replace(self, route={ur.params[1]})")
             ctx.check(ok, "D1", "DU.move", f"{cname}.update_route stores the given route and nothing else", ur, why_bad="changed", construct=f"{cname}.update_route")
     rules.rule_default_update(ctx, "D4")
+
+
+# the activity an arrival hands over to refuses (None, None) for lack of a resource unless this holds; normalised names
+ARRIVAL_NEEDS = {
+    "ReserveBase": ((("int", "SIM.bases.get(SELF.base_id).available_stalls"),), "a free stall at the base"),
+    "ChargingStation": ((("bool", "SIM.stations.get(SELF.station_id).has_available_charger(SELF.charger_id)"),
+                         ("int", "SIM.stations.get(SELF.station_id).get_available_chargers(SELF.charger_id)")), "a free plug of the requested type at the station"),
+}
+
+
+def arrival_enterable(ctx: Ctx):
+    """'... leaves the travelling activity within one step of arriving': the default terminal state of a travelling activity
+    is entered through the generic transition, which leaves the vehicle where it was when `enter` refuses. An arrival may
+    therefore hand over to an activity that refuses for lack of a resource (ReserveBase: no stall; ChargingStation: no plug)
+    only on paths that tested for the resource — with a fallback (Idle / the queue) on the others. Otherwise a vehicle that
+    arrives at a full base / station stays in the travelling activity with an empty route, step after step."""
+    repo = ctx.repo
+    n = 0
+    for sc in states.state_classes(repo):
+        t = repo.method(sc.cls, "_default_terminal_state")
+        if t is None or t.cls is None or t.cls.name != sc.name or not _has_route_field(sc):
+            continue
+        ren = sc.rename(t)
+        for p in flow.paths(t.node):
+            if p.kind != "return" or flow.classify_result(p.value) != "ok":
+                continue
+            base_facts = [(states.norm(a, ren), pol) for a, pol in p.facts()]
+
+            def alts(e, facts):
+                e = flow.core(e)
+                if isinstance(e, ast.IfExp):
+                    tn = states.norm(e.test, ren)
+                    return alts(e.body, facts + flow.implied(tn, True)) + alts(e.orelse, facts + flow.implied(tn, False))
+                return [(e, facts)]
+
+            for v, facts in alts(p.value.elts[1], base_facts):
+                k = (flow.dump(v.func).split(".")[0] if isinstance(v, ast.Call) else None)
+                if k not in ARRIVAL_NEEDS:
+                    continue
+                n += 1
+                forms, what = ARRIVAL_NEEDS[k]
+                ok = False
+                for kind, term in forms:
+                    if kind == "int":
+                        ok = ok or 0 not in gd.allowed_values(facts, term)
+                    else:
+                        ok = ok or any(flow.dump(a) == term and pol is True for a, pol in facts)
+                ctx.check(ok, "D4", "GD.arrival-enterable", f"{sc.name}: arrival hands over to {k} only after testing for {what}", t, p.end,
+                          why_bad=f"path [{p.cond_text()[-200:]}] returns {k} without having tested for {what} (`{forms[0][1]}`): {k}.enter refuses when there is none, the transition is "
+                                  f"dropped and the vehicle stays in {sc.name} with an empty route for good",
+                          construct=f"{sc.name}._default_terminal_state:{k}-untested")
+    ctx.require(n >= 2, f"arrival hand-overs to a resource-bound activity: only {n} found")
+
+
+def _has_route_field(sc) -> bool:
+    return any(isinstance(s, ast.AnnAssign) and isinstance(s.target, ast.Name) and s.target.id == "route" for s in sc.cls.node.body)
 
 
 def selftest():
